@@ -48,38 +48,65 @@ def run(chk: Check, eng: Engine) -> None:
     replace_guard(chk, eng, "R16-a", {"read_only"})
 
     # ---- R16-b ---------------------------------------------------------------
+    # every site that obtains generator output (Grammar.generate) and lets it escape - attached to a tree or returned - seals its children first
     ntn = eng.cls(f"{NODES}.non_terminal", "NonTerminalNode")
-    fz = eng.method(ntn, "fuzz", inherited=False)
-    cfg = eng.cfg(fz)
-    gens = [n for n in cfg.nodes if n.kind == "stmt" and isinstance(n.ast, ast.Assign) and isinstance(n.ast.value, ast.Call) and call_name(n.ast.value) == "generate"]
-    if len(gens) != 1:
-        raise AnalysisError("NonTerminalNode.fuzz: the grammar.generate(...) assignment was not found")
-    gvar = gens[0].ast.targets[0].id  # type: ignore[union-attr]
-    attach = [n for n in cfg.nodes if n.kind == "stmt" and n.ast is not None and any(
-        isinstance(c, ast.Call) and call_name(c) in ("add_child", "set_children", "append") and any(isinstance(a, ast.Name) and a.id == gvar for a in c.args) for c in ast.walk(n.ast))]
-    if not attach:
-        raise AnalysisError("NonTerminalNode.fuzz: the generated subtree is never attached")
-    seals = [l for l in sealing_loops(fz.node) if isinstance(l.iter, ast.Attribute) and isinstance(l.iter.value, ast.Name) and l.iter.value.id == gvar and l.iter.attr in ("children", "_children")]
-    seal_nodes = [i for l in seals for i in cfg.nodes_of(l, {"for"})]
-    direct = [n.id for n in cfg.nodes if n.kind == "stmt" and n.ast is not None and any(
-        isinstance(c, ast.Call) and call_name(c) == "set_all_read_only" and isinstance(c.func, ast.Attribute) and isinstance(c.func.value, ast.Name) and c.func.value.id == gvar
-        and c.args and isinstance(c.args[0], ast.Constant) and c.args[0].value is True for c in ast.walk(n.ast))]
-    for a in attach:
-        p = cfg.find_path(gens[0].id, [a.id], avoid=seal_nodes + direct)
-        if p is None and (seal_nodes or direct):
-            chk.ok("R16-b", fz.fq, a.line, f"`{a.text()}` is reached only after every child of `{gvar}` was marked read-only")
-        else:
-            chk.bad("R16-b", eng.relfile(fz), a.line, fz.fq, f"`{a.text()}` can attach generator output whose children are still writable",
-                    "mutation / crossover / repair may then edit text that a generator produced, without re-running the generator",
-                    path=cfg.describe_path(p) if p else [], keyparts="attach-unsealed")
-    # the sealing loop body must not be conditional
-    for l in seals:
-        if len(l.body) == 1 and isinstance(l.body[0], ast.Expr):
-            pass
-        else:
-            conds = [x for x in ast.walk(l) if isinstance(x, (ast.If, ast.Continue, ast.Break))]
-            if conds:
-                chk.bad("R16-b", eng.relfile(fz), l.lineno, fz.fq, f"the sealing loop `{short(l, 60)}` skips some children", "part of the generated text stays editable", keyparts="seal-partial")
+    gcls = eng.cls(GRAMMAR, "Grammar")
+    SOURCES_ONLY = {f"{GRAMMAR}:Grammar.derive_sources": "the generated trees become *sources* (arguments recorded with the tree), not text of the tree; their own generator children are "
+                                                       "sealed through populate_sources(child)"}
+    n_sites = 0
+    for f in eng.ix.all_functions:
+        if not f.module.startswith(("fandango.language", "fandango.evolution", "fandango.constraints", "fandango.io")):
+            continue
+        calls = [n for n in walk_local(f.node) if isinstance(n, ast.Assign) and len(n.targets) == 1 and isinstance(n.targets[0], ast.Name) and isinstance(n.value, ast.Call)
+                 and call_name(n.value) == "generate" and isinstance(n.value.func, ast.Attribute) and norm(n.value.func.value).split(".")[-1] in ("grammar", "self", "_grammar")]
+        if f.cls is not gcls:
+            calls = [c for c in calls if norm(c.value.func.value) != "self"]  # self.generate of the search driver is another function
+        if not calls:
+            continue
+        cfg = eng.cfg(f)
+        for call in calls:
+            n_sites += 1
+            gvar = call.targets[0].id  # type: ignore[union-attr]
+            gnode = [n for n in cfg.nodes if n.kind == "stmt" and n.ast is call]
+            if not gnode:
+                raise AnalysisError(f"{f.fq}: generate(...) statement not in the CFG")
+            if f.fq in SOURCES_ONLY:
+                ok_src = any(isinstance(c, ast.Call) and call_name(c) == "populate_sources" for c in walk_local(f.node))
+                if ok_src:
+                    chk.ok("R16-b", f.fq, call.lineno, f"`{short(call, 50)}`: {SOURCES_ONLY[f.fq]}", nontrivial=False)
+                else:
+                    chk.bad("R16-b", eng.relfile(f), call.lineno, f.fq, "generated source trees are no longer passed through populate_sources", "nested generator output inside a recorded argument stays editable", keyparts="sources-unsealed")
+                continue
+
+            def mentions(e: ast.AST) -> bool:
+                return any(isinstance(x, ast.Name) and x.id == gvar for x in ast.walk(e))
+            escapes = [n for n in cfg.nodes if n.kind == "stmt" and n.ast is not None and (
+                (isinstance(n.ast, ast.Return) and n.ast.value is not None and mentions(n.ast.value)) or
+                any(isinstance(c, ast.Call) and call_name(c) in ("add_child", "set_children", "append", "extend", "insert") and any(mentions(a_) for a_ in c.args) for c in ast.walk(n.ast)))]
+            if not escapes:
+                raise AnalysisError(f"{f.fq}: the output of generate(...) neither escapes nor is attached")
+            seals = [l for l in sealing_loops(f.node) if isinstance(l.iter, ast.Attribute) and isinstance(l.iter.value, ast.Name) and l.iter.value.id == gvar and l.iter.attr in ("children", "_children")]
+            seal_nodes = [i for l in seals for i in cfg.nodes_of(l, {"for"})]
+            direct = [n.id for n in cfg.nodes if n.kind == "stmt" and n.ast is not None and any(
+                isinstance(c, ast.Call) and call_name(c) == "set_all_read_only" and isinstance(c.func, ast.Attribute) and isinstance(c.func.value, ast.Name) and c.func.value.id == gvar
+                and c.args and isinstance(c.args[0], ast.Constant) and c.args[0].value is True for c in ast.walk(n.ast))]
+            for a in escapes:
+                p = cfg.find_path(gnode[0].id, [a.id], avoid=seal_nodes + direct)
+                if p is None and (seal_nodes or direct):
+                    chk.ok("R16-b", f.fq, a.line, f"`{a.text()}` is reached only after every child of `{gvar}` was marked read-only")
+                else:
+                    users = sorted(c.split(":")[-1] for c in eng.cg.callers_of(f.fq))[:4] if isinstance(a.ast, ast.Return) else []
+                    chk.bad("R16-b", eng.relfile(f), a.line, f.fq, f"`{a.text()}` lets generator output escape whose children are still writable" + (f" (used by {', '.join(users)})" if users else ""),
+                            "mutation / crossover / repair may then edit text that a generator produced, without re-running the generator",
+                            path=cfg.describe_path(p) if p else [], keyparts="attach-unsealed")
+            # the sealing loop body must not be conditional
+            for l in seals:
+                if not (len(l.body) == 1 and isinstance(l.body[0], ast.Expr)):
+                    conds = [x for x in ast.walk(l) if isinstance(x, (ast.If, ast.Continue, ast.Break))]
+                    if conds:
+                        chk.bad("R16-b", eng.relfile(f), l.lineno, f.fq, f"the sealing loop `{short(l, 60)}` skips some children", "part of the generated text stays editable", keyparts="seal-partial")
+    if n_sites < 3:
+        raise AnalysisError(f"only {n_sites} Grammar.generate call site(s) found")
     g = eng.cls(GRAMMAR, "Grammar")
     ps = eng.method(g, "_populate_sources", inherited=False)
     pcfg = eng.cfg(ps)
@@ -199,6 +226,10 @@ _G = "src/fandango/language/grammar/grammar.py"
 _MU = "src/fandango/evolution/mutation.py"
 _CX = "src/fandango/evolution/crossover.py"
 MUTANTS = [
+    M("regenerated-children-writable", "src/fandango/language/grammar/grammar.py", "        generated = self.generate(tree.nonterminal, tree.sources)\n        # Prevent children from being overwritten without executing generator\n        for child in generated.children:\n            child.set_all_read_only(True)\n        return generated.children\n",
+      "        generated = self.generate(tree.nonterminal, tree.sources)\n        return generated.children\n", "R16-b"),
+    M("regenerated-children-sealed-only-if-many", "src/fandango/language/grammar/grammar.py", "        for child in generated.children:\n            child.set_all_read_only(True)\n        return generated.children\n",
+      "        if len(generated.children) > 1:\n            for child in generated.children:\n                child.set_all_read_only(True)\n        return generated.children\n", "R16-b"),
     M("guard-drops-readonly", _T, "            and self.symbol == path_to_replacement[current_path].symbol\n            and not self.read_only\n", "            and self.symbol == path_to_replacement[current_path].symbol\n", "R16-a"),
     M("seal-only-with-sender", _NT, "            for child in generated.children:\n                child.set_all_read_only(True)\n", "            if self.sender is None:\n                for child in generated.children:\n                    child.set_all_read_only(True)\n", "R16-b"),
     M("populate-sources-no-seal", _G, "            tree.sources = self.derive_sources(tree)\n            for child in tree.children:\n                child.set_all_read_only(True)\n            return", "            tree.sources = self.derive_sources(tree)\n            return", "R16-b"),
